@@ -15,12 +15,12 @@ def sig_c04(prefix, detail, meta):
 
 def run(tier, replay=None):
     rep = Report("C04", tier, "model_checking")
-    cells = [("clang++", "c++20")] if tier == "quick" else cxx.FOUR_CELLS
+    cells = [("clang++", "c++20")] if tier == "quick" else cxx.QUICK_CELLS
     tcells = cxx.QUICK_CELLS if tier == "quick" else cxx.FOUR_CELLS
     cap = 4 if tier == "quick" else 16
     maxlen = 2 if tier == "quick" else 3
     schemas = []
-    for bo in (("littleEndian",) if tier == "quick" else ("littleEndian", "bigEndian")):
+    for bo in ("littleEndian",):     # the cursor protocol does not depend on the byte order (values are compared by C02/C03)
         schemas += shapes.catalogue(tier, bo)
     rep.set("bounds", {"catalogue": "families A and B", "size_vectors": "ladder, <= %d per message" % cap,
                        "states": "every byte offset 0..len of the image and the null cursor, for every view reachable by random access (message, every entry at every depth)",
